@@ -513,6 +513,28 @@ def check_thread_state(env, where, final=False):
     return None
 
 
+def locked_out(env, exc, label):
+    """a session into which no fault was injected and which dies of SQLite's 'database is locked' / 'database table is
+    locked' was shut out by another session of the same process: Pony's provider lock is there to make it WAIT until that
+    session's transaction has really ended (with timeout=0 SQLite reports the conflict at once instead of retrying)"""
+    if exc is None or isinstance(exc, WouldBlock) or faultdb.is_injected(exc):
+        return None
+    if any(r.close_refused for r in env.rec.conns):
+        return None        # a connection the plan refused to close may still hold its file lock: not Pony's doing
+    text = str(exc).lower()
+    if 'database is locked' in text or 'table is locked' in text:
+        hint = ''
+        faults = [e for e in env.rec.indexed() if e['fault']]
+        if faults and faults[-1]['kind'] == 'commit' and faults[-1]['fault'] == 'before' and faults[-1]['tid'] != env.rec.tid():
+            hint = (' (the injected fault made the COMMIT of another thread fail at call %s: that thread gave the provider lock '
+                    'back before it had rolled its transaction back)' % faults[-1]['i'])
+        return ('%s failed with %s: %s -- it was not made to wait for another session of this process whose transaction had '
+                'not ended yet%s;%s calls: %s' % (label, type(exc).__name__, str(exc)[:120], hint, env.earlier(),
+                                               ' '.join('%s@t%d' % (b, e['tid']) for b, e in
+                                                        list(zip(env.rec.brief(), env.rec.indexed()))[-16:])))
+    return None
+
+
 def foreign_keys_state(con):
     """PRAGMA foreign_keys read through the raw connection (base-class call: not logged, never a fault point)"""
     import sqlite3
@@ -644,6 +666,14 @@ def run_actors_case(template, path, actors, schedule, plan, info=None):
         env.scheduler = sched
         results = [None] * len(actors)
 
+        def inside_call(entry):
+            # schedule point INSIDE the DB-API call that ends a transaction: the call has been entered by Pony but is not
+            # performed yet, and another actor may run now (as if the COMMIT / ROLLBACK took its time)
+            if entry['kind'] in ('commit', 'rollback') and entry['i'] is not None and sched.is_actor(threading.get_ident()) \
+                    and sched.state[sched.me()] == 'ready' and sched.current == sched.me():
+                sched.yield_()
+        env.rec.on_call = inside_call
+
         def actor(i):
             sched.start(i)
             try:
@@ -659,7 +689,7 @@ def run_actors_case(template, path, actors, schedule, plan, info=None):
                         exc = e          # deadlock between two live sessions: this one gives up, like a deadlock victim
                         if info is not None:
                             info['live_deadlocks'] = info.get('live_deadlocks', 0) + 1
-                    msg = internal_failure(env, exc, lab)
+                    msg = internal_failure(env, exc, lab) or locked_out(env, exc, lab)
                     env.history.append((lab, 'ok' if exc is None else type(exc).__name__))
                     if msg:
                         results[i] = msg
